@@ -2289,10 +2289,18 @@ def load_ipython_extension(arg=Ellipsis):
                        enable_signal_handler_debugger,
                        enable_sigterm_handler,
                        add_debug_functions_to_builtins)
-    enable_faulthandler()
-    enable_signal_handler_debugger()
-    enable_sigterm_handler(on_existing_handler='keep_existing')
-    add_debug_functions_to_builtins(add_deprecated=False)
+    try:
+        enable_faulthandler()
+        enable_signal_handler_debugger()
+        enable_sigterm_handler(on_existing_handler='keep_existing')
+        add_debug_functions_to_builtins(add_deprecated=False)
+    except Exception as e:
+        # These are optional conveniences (e.g. faulthandler needs a
+        # sys.stderr with a fileno()); failing to set them up must not make
+        # IPython consider the extension as not loaded while the auto
+        # importer is already enabled.
+        logger.debug("Couldn't enable debugging tools: %s: %s",
+                     type(e).__name__, e)
     inject_dynamic_import()
     initialize_comms()
 
